@@ -131,4 +131,9 @@ theorem gen_no_panic_on_read_path :
     GitBugModel.Gen.Panics.readPath.all (fun p => p.2 == 0) = true ∧ GitBugModel.Gen.Panics.readPath.length ≥ 20 := by
   decide
 
+/-- nor an unchecked type assertion (`x.(T)` in its one-result form panics on another dynamic
+type; what is decoded from git decides the dynamic type of a packet, a key, an operation) -/
+theorem gen_no_unchecked_assert : GitBugModel.Gen.Panics.uncheckedAsserts = [] := by
+  decide
+
 end GitBugModel.Props.C07
